@@ -151,7 +151,7 @@ def run(pid, tier, seed, replay, t0):
     # ---- failing-input search after a break without a concrete failure
     searched = 0
     if broken and not failures:
-        failures, searched = search(pid, ctx, props, impl, disagreements, tables, seed)
+        failures, searched = search(pid, ctx, props, impl, disagreements, tables, seed, cases)
     # ---- verdict
     known = [k for k in core.load_known() if k.get("property") == pid and k.get("status") == "open"]
     os.makedirs(os.path.join(core.VERIF, "replays"), exist_ok=True)
@@ -234,7 +234,7 @@ def match_known(f, known):
     return None
 
 
-def search(pid, ctx, props, impl, disagreements, tables, seed):
+def search(pid, ctx, props, impl, disagreements, tables, seed, cases=()):
     """look for a concrete input on which the property itself fails on the real code"""
     failures = []
     n = 0
@@ -247,6 +247,25 @@ def search(pid, ctx, props, impl, disagreements, tables, seed):
                 failures.append({"line": d["line"], "extra": d["extra"], "klass": d["klass"], "what": r, "impl": d["impl"], "oracle": d["oracle"]})
     if failures:
         return failures, n
+    if pid == "C13" and disagreements:
+        # history dependence: the same op in a fresh interpreter must give the same answer
+        import subprocess
+        for d in disagreements[:40]:
+            n += 1
+            code = ("import sys; sys.path.insert(0, %r); import impl; print(impl.eval_guarded(%r, %r))" % (HERE, d["line"], d["extra"]))
+            r = subprocess.run([core.PY, "-c", code], capture_output=True, text=True, env=dict(os.environ, VERIF_REPO=core.REPO))
+            fresh = [l for l in r.stdout.splitlines() if l and "WARNING" not in l]
+            fresh = fresh[-1] if fresh else ""
+            if fresh and fresh != d["impl"]:
+                hist = []
+                for c in cases:
+                    hist.append(c["line"])
+                    if c["line"] == d["line"]:
+                        break
+                failures.append({"line": d["line"], "extra": dict(d["extra"], history=hist), "klass": d["klass"], "impl": d["impl"], "oracle": None,
+                                 "what": "parse result depends on history: after the ops generated by cases_C13(seed=%d) this op gives a different result than in a fresh interpreter (%s ... vs %s ...)" % (
+                                     seed, d["impl"][:60], fresh[:60])})
+                return failures, n
     # 2. the generators again with other seeds and the thorough budget
     t0 = time.time()
     budget = 60 if ctx.tier == "quick" else 600
@@ -278,6 +297,26 @@ def do_replay(pid, path, ctx, props, impl, tables):
         print("replay names a broken obligation, not an input: %s" % json.dumps(r.get("no_longer_checks"))[:500])
         return 1
     line, extra = r["input"]["line"], r["input"].get("extra", {})
+    if "history" in extra:
+        import subprocess
+        hist = extra["history"]
+        code = ("import sys, json; sys.path.insert(0, %r); import impl\n"
+                "out = ''\n"
+                "for l in json.load(sys.stdin): out = impl.eval_guarded(l)\n"
+                "print(out)" % HERE)
+        outs = []
+        for h in (hist, [line]):
+            pr = subprocess.run([core.PY, "-c", code], input=json.dumps(h), capture_output=True, text=True,
+                                env=dict(os.environ, VERIF_REPO=core.REPO))
+            ls = [l for l in pr.stdout.splitlines() if l and "WARNING" not in l]
+            outs.append(ls[-1] if ls else "")
+        print("after history (%d ops): %s" % (len(hist), outs[0][:300]))
+        print("fresh interpreter     : %s" % outs[1][:300])
+        if outs[0] != outs[1]:
+            print("VIOLATION property=%s replay=%s" % (pid, path))
+            return 1
+        print("replay passes")
+        return 0
     out = impl.eval_guarded(line, dict(extra))
     mo = impl.canon_model(core.run_driver([line])[0], tables)
     print("impl : " + out[:500])
